@@ -170,6 +170,8 @@ fn sample(what: &str, args: &[&str], first: bool) -> Result<Vec<(String, Vec<u8>
                 let ks: Option<Vec<_>> = args[1..].iter().map(|k| pubkey(k)).collect();
                 let Some(ks) = ks else { return Err("bad-op".into()) };
                 let b = match ks.len() {
+                    0 => GroupedElGamal::<0>::encrypt([], x).to_bytes(),
+                    1 => GroupedElGamal::<1>::encrypt([&ks[0]], x).to_bytes(),
                     2 => GroupedElGamal::<2>::encrypt([&ks[0], &ks[1]], x).to_bytes(),
                     3 => GroupedElGamal::<3>::encrypt([&ks[0], &ks[1], &ks[2]], x).to_bytes(),
                     _ => return Err("bad-op".into()),
